@@ -240,6 +240,62 @@ class RC4Sys(HSystem):
         ctx.eq('C06/rc4/continuous-stream/state', self.canon(o), (tuple(S), i, j))
 
 
+class StreamSys(HSystem):
+    """one Salsa20 / ChaCha object, ONE caller-owned nonce Bits object that is overwritten in place, and keystream
+    generators that are held open while other requests run on the same object"""
+
+    def __init__(self, c):
+        self.c = c
+        self.key = expander(32, 31)
+        self.nonces = [expander(8, 32), expander(8, 33)]
+
+    def fresh(self):
+        return {'o': mk(self.c, self.key, 8), 'v': nv(self.nonces[0]), 'cur': 0, 'gen': None, 'gnonce': None, 'gnext': 0, 'exp': None}
+
+    def canon(self, o):
+        from mc.engine import canon as gcanon
+        return (gcanon(o['o']), o['cur'], o['gnonce'], o['gnext'], int(o['v']), o.get('gdirty'))
+
+    def events(self, o):
+        return [('enc', 70), ('enc', 3), ('set-nonce-in-place', 0), ('set-nonce-in-place', 1), ('open-generator',), ('next-from-generator',)]
+
+    def ks(self, nonce_i, block0, nblocks):
+        return b''.join(blockf(self.c)(self.key, self.nonces[nonce_i], block0 + j, 8) for j in range(nblocks))
+
+    def apply(self, o, ev):
+        from crysp.bits import Bits, pack
+        if ev[0] == 'set-nonce-in-place':
+            o['cur'] = ev[1]
+            o['v'][0:64] = Bits(self.nonces[ev[1]], bitorder=1)         # the same Bits object, new value
+            o['exp'] = None
+            return None
+        if ev[0] == 'enc':
+            M = expander(ev[1], 34)
+            o['exp'] = xor(M, self.ks(o['cur'], 0, (ev[1] + 63) // 64))
+            if o['gen'] is not None and o['cur'] != o['gnonce']:
+                o['gdirty'] = True      # another nonce went through the object: what the held generator yields next is not specified
+            return o['o'].enc(o['v'], M)
+        if ev[0] == 'open-generator':
+            o['gen'] = o['o'].keystream(nv(self.nonces[o['cur']]))
+            o['gnonce'], o['gnext'] = o['cur'], 0
+            o['gdirty'] = False
+            o['exp'] = None
+            return None
+        if o['gen'] is None:
+            o['exp'] = None
+            return None
+        blk = next(o['gen'])
+        o['exp'] = None if o.get('gdirty') else self.ks(o['gnonce'], o['gnext'], 1)
+        o['gnext'] += 1
+        return b''.join(pack(w) for w in blk)
+
+    def judge(self, ctx, hist, ev, res, o):
+        if o['exp'] is None:
+            ctx.eq('C06/%s/stream-history/%s' % (self.c, ev[0]), res[0], 'ok')
+        else:
+            ctx.eq('C06/%s/stream-history/%s' % (self.c, ev[0]), res, ('ok', o['exp']))
+
+
 class RC4Long(RC4Sys):
     """pieces longer than 64 KiB followed by further calls (depth 2)"""
     SIZES = (65537, 7)
@@ -250,7 +306,7 @@ class RC4Long(RC4Sys):
 
 
 def systems(tier):
-    d = {'key5': RC4Sys(bytes.fromhex('0102030405')), 'key16': RC4Sys(expander(16, 9)), 'key7-long-pieces': RC4Long(b'seven77')}
+    d = {'salsa20-stream': StreamSys('salsa20'), 'chacha-stream': StreamSys('chacha'), 'key5': RC4Sys(bytes.fromhex('0102030405')), 'key16': RC4Sys(expander(16, 9)), 'key7-long-pieces': RC4Long(b'seven77')}
     if tier == 'thorough':
         d['key1'] = RC4Sys(b'\x80')
         d['key256'] = RC4Sys(expander(256, 3))
@@ -276,8 +332,8 @@ def subchecks():
         Sub('counter-carry', pts_carry, run_carry, engine='H',
             bound='via the guarded hook: keystream started at block 2^32-2, 2^32-1, 2^32, 2^33-1, 2^48+5, 2^64-2; 4 (2) blocks vs reference with the 64-bit counter split over two words'),
         Sub('rc4-keys', pts_rc4keys, run_rc4keys, engine='P', bound='every key length 1..256 (ramp) + 3 patterns at {1,5,16,255,256}: key-schedule state, 40 bytes, dec(enc), empty message'),
-        hsub('rc4-histories', systems, lambda tier: 3,
-             bound='one RC4 object; events enc(m) |m| in {0,1,2,3,255,256,257,600}, keystream(0/1/256), dec(5 bytes); all sequences to depth 3 for 2 keys (thorough 4 keys), deduplicated by (S,i,j); output = reference stream slice, state = reference state after the consumed total; one more key with a piece of 65537 bytes followed by further calls (depth 2)'),
+        hsub('rc4-histories', systems, lambda tier: 3 if tier == 'quick' else 4,
+             bound='Salsa20 and ChaCha: one cipher object, one caller-owned nonce object overwritten in place, keystream generators held open across other requests, all sequences to depth 3 (4); one RC4 object; events enc(m) |m| in {0,1,2,3,255,256,257,600}, keystream(0/1/256), dec(5 bytes); all sequences to depth 3 for 2 keys (thorough 4 keys), deduplicated by (S,i,j); output = reference stream slice, state = reference state after the consumed total; one more key with a piece of 65537 bytes followed by further calls (depth 2)'),
     ]
 
 
